@@ -21,11 +21,11 @@ RETURNS = {
     "list": {"val": [1, "a", None, True]}, "int": {"val": 0}, "nan": {"val": {"$t": "float", "v": "nan"}},
     "tuple": {"val": T(1, 2)}, "object": {"obj": True}, "bytes": {"val": {"$t": "bytes", "v": "00"}},
 }
-RAISES = ["ValueError", "KeyError", "Boom", "ExecutionError", "CallbackError", "ValidationError", "InvocationError",
+RAISES = ["ValueError", "KeyError", "Boom", "DataErr", "DataErrSet", "ExecutionError", "CallbackError", "ValidationError", "InvocationError",
           "StepInterruptedError", "CallableRuntimeError", "SerDesError", "InvalidStateError", "OrderedLockError",
           "NonDeterministicExecutionError"]
 INVOCATION_FAMILY = {"InvocationError", "StepInterruptedError", "BotoClientError", "GetExecutionStateError", "CheckpointError"}
-USER_FAMILY = {"ValueError", "KeyError", "Boom", "Bam", "TypeError", "RuntimeError"}
+USER_FAMILY = {"ValueError", "KeyError", "Boom", "Bam", "TypeError", "RuntimeError", "DataErr", "DataErrSet"}
 
 
 def programs():
